@@ -5,6 +5,10 @@
 (*                                                                         *)
 (* Lines (harness/httpfam/exec.go):                                        *)
 (*   {"k":"reset", app, fh, fok, file}                                     *)
+(*   {"k":"base", app, rg, fh, fok, file}  the state after a prelude that  *)
+(*    was executed without logging (another history of the run logs the    *)
+(*    same prelude step by step): the judge synchronises on it; rg = the   *)
+(*    graph the harness last fetched with GET /graph                       *)
 (*   {"k":"req", r: request of HttpEdit, st: status (-1 = a panic left the *)
 (*    handler, -2 = not sent), rk: body kind, rid/rtype/rval/rtext/rg:     *)
 (*    projected response, app: application graph after the request,        *)
@@ -82,6 +86,14 @@ TReset ==
     /\ g' = Empty /\ snap' = Empty /\ file' = Empty /\ pfh' = Trace[l].fh /\ live' = TRUE
     /\ hist' = hist /\ l' = l + 1
 
+TBase ==
+    /\ l <= Len(Trace) /\ Trace[l].k = "base"
+    /\ LET ln == Trace[l] IN
+       /\ IF Clean(ln.app) THEN g' = FromProj(ln.app) /\ live' = TRUE ELSE g' = g /\ live' = FALSE
+       /\ snap' = IF Clean(ln.rg) THEN FromProj(ln.rg) ELSE Empty
+       /\ pfh' = ln.fh
+    /\ UNCHANGED <<hist, file>> /\ l' = l + 1
+
 Ok2xx(st) == st >= 200 /\ st < 300
 Err(st) == st >= 400 /\ st < 600
 
@@ -112,7 +124,7 @@ TReq ==
            bad == IF ~live \/ ~sent
                   THEN (IF ln.st = 0 - 1 THEN {"X04.NoPanic"} ELSE {})
                   ELSE
-                  (IF ~RouteOK(r) THEN {"Route.Mismatch"} ELSE {})
+                  (IF ~RouteOK(r) \/ ~Encodable(g, r) THEN {"Route.Mismatch"} ELSE {})
                   \cup (IF ln.st = 0 - 1 THEN {"X04.NoPanic"} ELSE {})
                   \cup (IF cls = "valid" /\ ln.st # 0 - 1 /\ ~Ok2xx(ln.st) THEN {"X04.Accepts"} ELSE {})
                   \cup (IF cls = "invalid" /\ ln.st # 0 - 1 /\ ~Err(ln.st) THEN {"X04.Rejects"} ELSE {})
@@ -136,7 +148,7 @@ TReq ==
           /\ pfh' = ln.fh
     /\ UNCHANGED <<hist, file>> /\ l' = l + 1
 
-TNext == TReset \/ TReq
+TNext == TReset \/ TBase \/ TReq
 TSpec == TInit /\ [][TNext]_tvars
 TraceAccepted == PrintT(ToJson([stat |-> TLCGet(1)])) /\ TLCGet("stats").diameter - 1 = Len(Trace)
 =============================================================================
